@@ -313,6 +313,30 @@ for si in range(nsets):
     cases.append("([%s], [%s], [%s])" % (";\n ".join(obs), "; ".join(pairs), "; ".join(ordered)))
     meta.append(dict(atoms=label, n=n, formulas=len(forms), charge_tie=bool(tie), ordered=texts))
 
+# ------------------------------------------------------------------ counts that are not short decimals
+# thirds, sevenths, sums such as 0.1 + 0.2, and counts below 1e-12: the Hill form has exactly the atom counts of the
+# formula (it is built from them), whatever their digits
+stats["inexact"] = 0
+for _ in range(40):
+    try:
+        atoms = pick_atoms(rng.randint(2, 5))
+        parts = [(rng.choice([1 / 3.0, 2 / 7.0, 0.1 + 0.2, 1e-13 / 3, 5e-13, 1e5 / 7, rng.random(), 10 ** rng.uniform(-14, 3)]), a) for a in atoms]
+        f = formula(tuple(parts))
+        if rng.random() < 0.5:
+            f = (1 / 3.0) * f + (1 / 7.0) * formula(tuple(parts[:2]))
+        h = f.hill
+        stats["inexact"] += 1
+        fa = {atom_key(a): c for a, c in f.atoms.items()}
+        ha = {atom_key(a): c for a, c in h.atoms.items()}
+        inp = "formula(%s).hill" % show(f.structure)
+        if fa != ha:
+            fail("C19:hill-atoms-differ", "%s has atom counts %r, the formula has %r" % (inp, ha, fa), input=inp)
+        elif h.hill != h or {atom_key(a): c for a, c in h.hill.atoms.items()} != ha:
+            fail("C19:hill-not-idempotent", "%s: taking the Hill form twice changes it" % inp, input=inp)
+    except Exception as e:  # noqa
+        fail("C19:raises", "Hill form of a formula with inexact counts raised %s: %s" % (type(e).__name__, e), input="inexact counts")
+        break
+
 # ------------------------------------------------------------------ the same statements over a private table
 # (same counts means the same atoms: those of the formula's own table)
 try:
